@@ -29,7 +29,13 @@ Waiting(o, a) == App(o, a).parked = "send"
 
 Clauses(o, ev, o2) ==
     CASE ev.e = "quiescent" /\ o.opened ->
-            (IF Connected(o) /\ ev.held + ev.tbuf > Bound(o) THEN <<F("held-unbounded", o.cfg.carrier)>> ELSE <<>>)
+            (IF Connected(o) /\ ev.held + ev.tbuf > Bound(o)
+             THEN <<F("held-unbounded",
+                      IF IsH2(o) /\ (o.cwin <= 0 \/ \E a \in DOMAIN o.apps : Waiting(o, a) /\ SWin(o, a) <= 0)
+                      THEN "h2-window-exhausted"
+                      ELSE IF IsH2(o) /\ \E a \in DOMAIN o.apps : App(o, a).rstart /\ SWin(o, a) <= 0
+                      THEN "h2-window-exhausted" ELSE o.cfg.carrier)>>
+             ELSE <<>>)
          \o (LET Reset(a)  == Waiting(o, a) /\ Req(o, a).rst
                  \* (a client that half-closed but does not read leaves the transport paused: the
                  \*  pressure has not abated and nothing is demanded until it reads, resets or is closed)
